@@ -562,6 +562,9 @@ async fn run_unit(role: usize, shard: usize, shards: usize, only: Option<usize>)
         } else {
             *out.refused.entry(code.clone()).or_default() += 1;
         }
+        if !in_field_section && std::env::var("VGOV_TRACE").is_ok() {
+            eprintln!("{role_name} {} -> {} | {}", c.family, if code.is_empty() { "accepted" } else { code.as_str() }, c.text.chars().take(110).collect::<String>());
+        }
         let post = dump(&s.nexus).await;
         let changes = compare(&pre, &post, &mut out.counters);
         if out.samples.len() < 2 && (index % 97 == 5) {
